@@ -326,6 +326,11 @@ void reset_load_object_limits() {
   num_objects_this_thread = 0;
 }
 
+#ifdef NEOLITH_VERIF
+/* verification hook: read the load-depth guard (static above) */
+int verif_load_object_depth (void) { return num_objects_this_thread; }
+#endif
+
 /**
  * @brief Load an object definition from file. If the object wants to inherit
  * from an object that is not loaded, discard all, load the inherited object,
@@ -929,6 +934,11 @@ static object_t *restrict_destruct;
 void reset_destruct_object_limits() {
   restrict_destruct = NULL;
 }
+
+#ifdef NEOLITH_VERIF
+/* verification hook: read the destruct restriction guard (static above) */
+object_t *verif_restrict_destruct (void) { return restrict_destruct; }
+#endif
 
 /**
  * Remove an object. It is first moved into the \c ob_list_destruct linked
